@@ -58,9 +58,39 @@ def element_vars(fn_node, lists=NUMERIC_LISTS):
   return out
 
 
+def guarded_range_tests(fn_node):
+  """`x and x < c`: the truth test meant as "is given" also swallows the
+  value 0, so the range test never sees it."""
+  out = []
+  for n in ast.walk(fn_node):
+    if isinstance(n, ast.BoolOp) and isinstance(n.op, ast.And):
+      plain = {dotted(v): v for v in n.values if dotted(v)}
+      for v in n.values:
+        if isinstance(v, ast.Compare) and len(v.ops) == 1 and isinstance(
+            v.ops[0], (ast.Lt, ast.LtE, ast.Gt, ast.GtE)):
+          for side, other in ((v.left, v.comparators[0]),
+                              (v.comparators[0], v.left)):
+            d = dotted(side)
+            c = other.value if isinstance(other, ast.Constant) else None
+            if d in plain and isinstance(c, (int, float)) and not isinstance(
+                c, bool):
+              # does the comparison reject 0 ?  then 0 slips through
+              op = v.ops[0]
+              zero_left = side is v.left
+              rejects0 = {
+                  ast.Lt: (0 < c) if zero_left else (c < 0),
+                  ast.LtE: (0 <= c) if zero_left else (c <= 0),
+                  ast.Gt: (0 > c) if zero_left else (c > 0),
+                  ast.GtE: (0 >= c) if zero_left else (c >= 0)}[type(op)]
+              if rejects0:
+                out.append((plain[d], d))
+  return out
+
+
 def find_truth_tests(fn_node, names=NUMERIC_OPTS):
   out = []
   elems = element_vars(fn_node)
+  out.extend(guarded_range_tests(fn_node))
   for e in truth_positions(fn_node):
     d = dotted(e)
     if d and (d.split('.')[-1] in names or d in elems):
@@ -74,15 +104,17 @@ def f(values, default_value=None, output_min=None):
     values = values[values != default_value]
   x = 1 if not output_min else 2
   lows = [v or -1.0 for v in input_min or [None]]
+  if units and units < 1:
+    raise ValueError(units)
   return values
 '''
 
 
 def selfcheck():
   hits = find_truth_tests(ast.parse(_POSITIVE))
-  if len(hits) != 3:
+  if len(hits) != 4:
     raise AnalysisError('N0 self-check: embedded positive example matched %d '
-                        'sites instead of 3' % len(hits))
+                        'sites instead of 4' % len(hits))
 
 
 def check(prog, res, fns, rule='N0'):
